@@ -1,23 +1,29 @@
 #!/bin/bash
 # run every kept seeded fault against its property's check; writes <out>.json with the verdict lines per seed
-# usage: tools/seed_campaign.sh [out.json]
+# usage: tools/seed_campaign.sh [out.json] [seed-dir-glob]
 cd "$(dirname "$0")/.."
 OUT=${1:-/tmp/seed_campaign.json}
+GLOB=${2:-seeded/C*-*/}
 [ -x .venv/bin/python ] || ./setup.sh >/dev/null 2>&1
 echo "{" > $OUT.tmp
 first=1
-for d in seeded/C*-*/; do
+for d in $GLOB; do
   key=$(basename $d); P=${key%-*}
   D=$(mktemp -d /tmp/scXXXX); rmdir $D
   git -C /repo worktree add -q $D HEAD
   (cd $D && git apply /verif/seeded/$key/patch.diff 2>/dev/null || git apply --3way /verif/seeded/$key/patch.diff >/dev/null 2>&1)
-  res=$(VERIF_REPO=$D ./check $P 2>&1 | grep -E "^(VIOLATION|UNDECIDED|CHECKER-ERROR)" | sed 's/replay=[^ ]*replay\///' | cut -c1-160 | head -8 | python3 -c "import sys,json; print(json.dumps(sys.stdin.read().splitlines()))")
-  code=$(VERIF_REPO=$D ./check $P >/dev/null 2>&1; echo $?)
+  VERIF_REPO=$D ./check $P > $OUT.run 2>&1; code=$?
   git -C /repo worktree remove --force $D
+  res=$(grep -E "^(VIOLATION|UNDECIDED|CHECKER-ERROR|OUT-OF-REACH)" $OUT.run | sed 's/replay=[^ ]*replay\///' | cut -c1-200 | python3 -c "
+import sys,json
+lines=sys.stdin.read().splitlines()
+v=[l for l in lines if l.startswith('VIOLATION')]
+ded=[l for l in v if '-rt-' not in l]; rt=[l for l in v if '-rt-' in l]
+print(json.dumps({'deductive': len(ded), 'standin': len(rt), 'undecided': sum(l.startswith('UNDECIDED') for l in lines), 'out_of_reach': sum(l.startswith('OUT-OF-REACH') for l in lines), 'checker_errors': sum(l.startswith('CHECKER') for l in lines), 'examples': (ded[:2]+rt[:2])}))")
   [ $first = 1 ] || echo "," >> $OUT.tmp
   first=0
-  echo "\"$key\": {\"exit\": $code, \"lines\": $res}" >> $OUT.tmp
-  echo "$key exit=$code"
+  echo "\"$key\": {\"exit\": $code, \"result\": $res}" >> $OUT.tmp
+  echo "$key exit=$code $(echo $res | cut -c1-90)"
 done
 echo "}" >> $OUT.tmp
-mv $OUT.tmp $OUT
+mv $OUT.tmp $OUT; rm -f $OUT.run
